@@ -57,7 +57,7 @@ func init() {
 			"each text is parsed by the real parse.Parse as thread 0 of the cooperative scheduler (go/send/recv of the lexer pair are visible operations, function entries and loop back-edges tick against a step horizon). " +
 			"Non-trivial = the text reaches beyond the first token (at least two lexer items were exchanged).",
 		Bound: map[string]string{
-			"quick":    "all strings of <=5 alphabet symbols; all byte prefixes + all single-byte deletions of the embedded corpus and /repo/parse/testschemas; one schedule per input (unbuffered rendezvous pair: all interleavings are Mazurkiewicz-equivalent)",
+			"quick":    "all strings of <=5 alphabet symbols; all byte prefixes + all single-byte deletions of the embedded corpus and /repo/parse/testschemas; one schedule per input while the execution is a producer/consumer pair on one channel (all interleavings are then Mazurkiewicz-equivalent), otherwise every schedule with <= 1 preemption (<= 200 schedules per input; thorough: <= 2 preemptions, <= 3000 schedules)",
 			"thorough": "all strings of <=6 alphabet symbols, plus <=7 for strings starting with the skeleton symbol; prefixes x single-byte deletions of the corpus",
 		},
 		Assumptions: []string{
@@ -69,17 +69,69 @@ func init() {
 }
 
 type caseRec struct {
-	Text string `json:"text"`
+	Text    string `json:"text"`
+	Choices []int  `json:"choices,omitempty"` // schedule (only for executions that are not a simple pair)
 }
 
 var posRe = regexp.MustCompile(regexp.QuoteMeta(inputName) + `:(\d+):(\d+)`)
 
-// check runs one text and returns violations.
+// check runs one text under the default schedule; when the execution is more than one
+// producer and one consumer on a single channel (a select, a second channel, a lock, a third
+// thread: then the interleavings are no longer all equivalent) every schedule with at most
+// 2 preemptions is explored as well.
 func check(text string) (vs []engine.Violation, outcome string, items int) {
+	vs, outcome, items, s := checkSchedule(text, nil)
+	if simplePair(s) {
+		return
+	}
+	seen := map[string]bool{}
+	for _, v := range vs {
+		seen[v.Key] = true
+	}
+	engine.ExploreSchedules(schedBound, schedCap, func(ch []int) *verifrt.Sched {
+		if len(ch) == 0 {
+			return s // already executed
+		}
+		vs2, _, _, s2 := checkSchedule(text, ch)
+		for _, v := range vs2 {
+			if !seen[v.Key] {
+				seen[v.Key] = true
+				v.Witness += fmt.Sprintf(" schedule=%v", ch)
+				v.Replay = engine.JSON(caseRec{Text: text, Choices: ch})
+				vs = append(vs, v)
+			}
+		}
+		return s2
+	}, func(*verifrt.Sched, []int) {})
+	return
+}
+
+// preemption bound and execution cap per input for executions that are not a simple pair
+var schedBound, schedCap = 1, int64(200)
+
+// simplePair: two threads, one channel, only send / recv / close / spawn operations.
+func simplePair(s *verifrt.Sched) bool {
+	if s.NThreads() > 2 {
+		return false
+	}
+	chans := map[string]bool{}
+	for _, p := range s.Points {
+		switch p.Op.Kind {
+		case verifrt.OpSend, verifrt.OpRecv, verifrt.OpClose:
+			chans[p.Op.Obj] = true
+		case verifrt.OpSpawn, verifrt.OpStart, verifrt.OpYield:
+		default:
+			return false
+		}
+	}
+	return len(chans) <= 1
+}
+
+func checkSchedule(text string, choices []int) (vs []engine.Violation, outcome string, items int, s *verifrt.Sched) {
 	var tree *parse.Tree
 	var err error
 	var panicked any
-	s := verifrt.RunControlled(nil, 200000, func() {
+	s = verifrt.RunControlled(choices, 200000, func() {
 		verifrt.SetHorizon(int64(64*len(text) + 20000))
 		defer func() {
 			if r := recover(); r != nil {
@@ -98,24 +150,24 @@ func check(text string) (vs []engine.Violation, outcome string, items int) {
 		}
 	}
 	mk := func(key, detail string) {
-		vs = append(vs, engine.Violation{Key: key, Witness: strconv.Quote(text), Detail: detail, Harness: "text", Replay: engine.JSON(caseRec{text})})
+		vs = append(vs, engine.Violation{Key: key, Witness: strconv.Quote(text), Detail: detail, Harness: "text", Replay: engine.JSON(caseRec{Text: text, Choices: choices})})
 	}
 	if s.BadReplay != "" {
 		mk("harness-bad-replay", s.BadReplay)
-		return vs, "bad", items
+		return vs, "bad", items, s
 	}
 	diverged := len(s.Diverged) > 0 || s.Livelock
 	t0blocked := !s.Thread0Done()
 	switch {
 	case diverged || t0blocked:
 		mk("nonterminating:"+endClass(text), fmt.Sprintf("Parse did not return: diverged threads %v, livelock=%v, blocked=%v", s.Diverged, s.Livelock, s.Blocked))
-		return vs, "nonterminating", items
+		return vs, "nonterminating", items, s
 	case panicked != nil:
 		mk("panic", fmt.Sprintf("Parse panicked: %v", panicked))
-		return vs, "panic", items
+		return vs, "panic", items, s
 	case len(s.Panics) > 0:
 		mk("panic-in-goroutine", strings.Join(s.Panics, "; "))
-		return vs, "panic", items
+		return vs, "panic", items, s
 	}
 	if len(s.Blocked) > 0 {
 		mk("goroutine-leak:"+errClass(err), fmt.Sprintf("after Parse returned (err=%v) goroutines remain blocked for ever: %v", err, s.Blocked))
@@ -145,7 +197,7 @@ func check(text string) (vs []engine.Violation, outcome string, items int) {
 			}
 		}
 	}
-	return vs, outcome, items
+	return vs, outcome, items, s
 }
 
 // endClass describes how the text ends (used in finding keys).
@@ -190,6 +242,9 @@ func errClass(err error) string {
 }
 
 func run(c *engine.Ctx) {
+	if !c.Quick() {
+		schedBound, schedCap = 2, 3000
+	}
 	if c.Shard == 0 {
 		// the channel / select model of the scheduler is checked against Go's semantics first
 		for _, problem := range engine.SchedSelfCheck() {
@@ -310,6 +365,10 @@ func replay(c *engine.Ctx, sub string, raw json.RawMessage) []engine.Violation {
 	var r caseRec
 	if json.Unmarshal(raw, &r) != nil {
 		return []engine.Violation{{Key: "harness-bad-replay-file"}}
+	}
+	if len(r.Choices) > 0 {
+		vs, _, _, _ := checkSchedule(r.Text, r.Choices)
+		return vs
 	}
 	vs, _, _ := check(r.Text)
 	return vs
